@@ -391,7 +391,7 @@ Qed.
 Section Format.
   Variable c : oconfig.
   Variable P : str -> bool.
-  Hypothesis HP : forall x, P x = true -> good_name x = true.
+  Hypothesis HP : forall x, P x = true -> x <> [] /\ nolt x = true /\ nocrlf x = true /\ name_start x = true.
 
   Lemma simple_facts : forall n, simple P n = true ->
     node_clean n = true /\ named_tree n = true /\ Forall nonvoid (tree_events c n).
@@ -399,17 +399,17 @@ Section Format.
     induction n as [nm v rp at_ ch sc IH] using anode_ind'. intros Hs.
     destruct (simple_inv P _ Hs) as [x [E [Hp Hch]]]. cbn [an_repeat an_children] in *.
     injection E as -> -> -> ->.
-    destruct (good_name_clean x (HP x Hp)) as [H1 [H2 H3]].
+    destruct (HP x Hp) as [Hne [H1 [H2 H3]]].
     assert (Hk : forall k, In k ch -> node_clean k = true /\ named_tree k = true /\ Forall nonvoid (tree_events c k)).
     { intros k Hk. rewrite Forall_forall in IH. rewrite forallb_forall in Hch.
       destruct (IH k Hk (Hch k Hk)) as [A [B C]]. auto. }
     repeat split.
     - cbn [node_clean]. rewrite H1, H2, H3. cbn [oval_nolt forallb andb].
       apply forallb_forall. intros k Hk'. apply (Hk k Hk').
-    - cbn [named_tree]. pose proof (good_name_nonempty x (HP x Hp)) as Hne.
+    - cbn [named_tree].
       destruct x as [|x0 x]; [contradiction|]. cbn [truthy_s andb].
       apply forallb_forall. intros k Hk'. apply (Hk k Hk').
-    - pose proof (good_name_nonempty x (HP x Hp)) as Hne. destruct x as [|x0 x]; [contradiction|].
+    - destruct x as [|x0 x]; [contradiction|].
       cbn [tree_events]. unfold self_closed. cbn [an_self andb].
       constructor; [exact I|]. apply Forall_app. split; [|constructor; [exact I|constructor]].
       apply Forall_flat_map. intros k Hk'. apply (Hk k Hk').
@@ -461,7 +461,54 @@ Definition cfg_ok (x : xconfig) : bool :=
 Definition name_fine (x : xconfig) (n : str) : bool :=
   good_name n && no_snippet (xc_m x) n && not_lorem n.
 
-(* from a token tree of fine names to the nesting of the output's tag chunks *)
+(* what the pipeline needs of a written name, whatever its characters: not empty, harmless for the
+   tag reader, not a snippet key, not `lorem...` *)
+Definition name_sem (x : xconfig) (n : str) : bool :=
+  match n with [] => false | _ => true end && nolt n && nocrlf n && name_start n &&
+  no_snippet (xc_m x) n && not_lorem n.
+
+(* from a token tree of bare names satisfying P (which implies [name_sem]) to the nesting of the
+   output's tag chunks *)
+Theorem expand_tree_P (P : str -> bool) x s toks root :
+  (forall n, P n = true -> name_sem x n = true) ->
+  cfg_ok x = true ->
+  tokenize s = TOk toks -> parse (mc_jsx (xc_m x)) toks = POk root ->
+  forallb (named P) root = true ->
+  (total_list root <= budget_of (mc_max_repeat (xc_m x)))%Z ->
+  exists st,
+    expand_markup x s = Ok st /\
+    nestT 0 (tags st) = map (fun p => (fst p, tag_name (xc_o x) (snd p))) (flat_map (nshape 0) root).
+Proof.
+  intros HP Hc Ht Hp Hn Hb. unfold cfg_ok in Hc.
+  apply andb_prop in Hc. destruct Hc as [Hc Hclean]. apply andb_prop in Hc. destruct Hc as [Hsyn Htext].
+  set (m := xc_m x) in *.
+  assert (Htx : mc_text m = WNone) by (destruct (mc_text m); [reflexivity|discriminate|discriminate]).
+  destruct (convert_named (mkCenv (mc_text m) (mc_variables m) (mc_href m)) (mc_max_repeat m) P root Htx Hn Hb)
+    as [forest [Hcv [Hsimple Hshape]]].
+  assert (Hsem : forall n, P n = true ->
+            n <> [] /\ nolt n = true /\ nocrlf n = true /\ name_start n = true /\ no_snippet m n = true /\ not_lorem n = true).
+  { intros n H. specialize (HP n H). unfold name_sem in HP. fold m in HP.
+    repeat (apply andb_prop in HP; let H' := fresh in destruct HP as [HP H']).
+    repeat split; try assumption. destruct n; discriminate. }
+  assert (HP1 : forall n, P n = true -> no_snippet m n = true) by (intros n H; apply (Hsem n H)).
+  assert (HP2 : forall n, P n = true -> n <> [] /\ not_lorem n = true) by (intros n H; split; apply (Hsem n H)).
+  assert (HP3 : forall n, P n = true -> n <> [] /\ nolt n = true /\ nocrlf n = true /\ name_start n = true).
+  { intros n H. destruct (Hsem n H) as [A [B [C [D _]]]]. auto. }
+  exists (html_format (xc_o x) forest). split.
+  - unfold expand_markup, markup_parse. fold m. unfold parse_abbr. rewrite Ht. fold m in Hp. rewrite Hp, Hcv. cbn [bind].
+    rewrite walk_resolve_eq. rewrite (walk_list_simple m [] _ P HP1 forest Hsimple). cbn [bind].
+    rewrite (transform_list_simple m P HP2 forest Hsimple).
+    rewrite (stringify_html _ _ _ Hsyn). reflexivity.
+  - rewrite (format_nest (xc_o x) P HP3 forest Hclean Hsimple). rewrite Hshape. reflexivity.
+Qed.
+
+Lemma name_fine_sem x n : name_fine x n = true -> name_sem x n = true.
+Proof.
+  unfold name_fine, name_sem. intros H. apply andb_prop in H. destruct H as [H H3]. apply andb_prop in H. destruct H as [H1 H2].
+  destruct (good_name_clean n H1) as [A [B C]]. rewrite A, B, C, H2, H3. destruct n; [discriminate|reflexivity].
+Qed.
+
+(* from a token tree of fine (letter) names to the nesting of the output's tag chunks *)
 Theorem expand_tree x s toks root :
   cfg_ok x = true ->
   tokenize s = TOk toks -> parse (mc_jsx (xc_m x)) toks = POk root ->
@@ -470,24 +517,4 @@ Theorem expand_tree x s toks root :
   exists st,
     expand_markup x s = Ok st /\
     nestT 0 (tags st) = map (fun p => (fst p, tag_name (xc_o x) (snd p))) (flat_map (nshape 0) root).
-Proof.
-  intros Hc Ht Hp Hn Hb. unfold cfg_ok in Hc.
-  apply andb_prop in Hc. destruct Hc as [Hc Hclean]. apply andb_prop in Hc. destruct Hc as [Hsyn Htext].
-  set (m := xc_m x) in *.
-  assert (Htx : mc_text m = WNone) by (destruct (mc_text m); [reflexivity|discriminate|discriminate]).
-  destruct (convert_named (mkCenv (mc_text m) (mc_variables m) (mc_href m)) (mc_max_repeat m) (name_fine x) root Htx Hn Hb)
-    as [forest [Hcv [Hsimple Hshape]]].
-  assert (HP1 : forall n, name_fine x n = true -> no_snippet m n = true).
-  { intros n H. unfold name_fine in H. apply andb_prop in H. destruct H as [H _]. apply andb_prop in H. apply H. }
-  assert (HP2 : forall n, name_fine x n = true -> n <> [] /\ not_lorem n = true).
-  { intros n H. unfold name_fine in H. apply andb_prop in H. destruct H as [H H3]. apply andb_prop in H. destruct H as [H1 _].
-    split; [apply good_name_nonempty, H1|exact H3]. }
-  assert (HP3 : forall n, name_fine x n = true -> good_name n = true).
-  { intros n H. unfold name_fine in H. apply andb_prop in H. destruct H as [H _]. apply andb_prop in H. apply H. }
-  exists (html_format (xc_o x) forest). split.
-  - unfold expand_markup, markup_parse. fold m. unfold parse_abbr. rewrite Ht. fold m in Hp. rewrite Hp, Hcv. cbn [bind].
-    rewrite walk_resolve_eq. rewrite (walk_list_simple m [] _ (name_fine x) HP1 forest Hsimple). cbn [bind].
-    rewrite (transform_list_simple m (name_fine x) HP2 forest Hsimple).
-    rewrite (stringify_html _ _ _ Hsyn). reflexivity.
-  - rewrite (format_nest (xc_o x) (name_fine x) HP3 forest Hclean Hsimple). rewrite Hshape. reflexivity.
-Qed.
+Proof. apply expand_tree_P. apply name_fine_sem. Qed.
